@@ -926,9 +926,10 @@ func main() {
 		}
 	} else {
 		cfgs = []config{
-			{name: "crash-points", depth: 5, alphabet: alphabet(2, 2, v4), share: 0.70},
-			{name: "crash-points+io-errors", depth: 4, alphabet: alphabet(2, 2, v3), ioErr: true, share: 0.85},
-			{name: "crash-points+leftover-temp-files", depth: 3, alphabet: alphabet(2, 2, v3), keepLeft: true, share: 1.0},
+			{name: "crash-points", depth: 5, alphabet: alphabet(2, 2, v3), share: 0.55},
+			{name: "crash-points-with-nil-block", depth: 4, alphabet: alphabet(2, 2, v4), share: 0.72},
+			{name: "crash-points+io-errors", depth: 4, alphabet: alphabet(2, 2, v3), ioErr: true, share: 0.86},
+			{name: "crash-points+leftover-temp-files", depth: 3, alphabet: alphabet(1, 2, v3), keepLeft: true, share: 1.0},
 		}
 	}
 	if only := os.Getenv("C34_CFG"); only != "" {
